@@ -210,6 +210,34 @@ theorem parsed_address_fits_packers_dc (b : Bytes) (a : Addr) (n : Nat) (h : con
 theorem no_panic_relay_dialstream_split (target : Addr) (ht : target.nameFits = true) (payloadLen draw : Nat) :
     dialStreamSplit target payloadLen draw ≠ .panic := np_dialStreamSplit target ht payloadLen draw
 
+/-! ### what a peer returns to a CLIENT of this program: the SOCKS5 UDP ASSOCIATE reply and the `conn.Addr` accessors -/
+
+/-- `Socks5UDPClient.NewSession` / `Socks5AuthUDPClient.NewSession` for EVERY byte stream the upstream server returns
+(every ATYP of BND.ADDR incl. a domain name, unspecified address, port 0, every reply code, truncated) and every resolver answer -/
+theorem no_panic_socks5_udp_associate_session (auth : Bool) (authMsg : Bytes) (resolve : Bytes → Option (Bool × Bytes)) (stream : Bytes) :
+    s5UDPNewSession auth authMsg resolve stream ≠ .panic := np_s5UDPNewSession auth authMsg resolve stream
+
+/-- the accessors' contract: under the guard the code uses they do not panic … -/
+theorem accessor_ip_under_guard (a : Addr) (h : a.isIP = true) : (a.ip : R (Bool × Bytes)) ≠ .panic := by
+  cases a <;> simp [Addr.isIP, Addr.ip] at h ⊢
+theorem accessor_domain_under_guard (a : Addr) (hv : a.isValid = true) (h : a.isIP = false) : (a.domain : R Bytes) ≠ .panic := by
+  cases a <;> simp [Addr.isIP, Addr.isValid, Addr.domain] at h hv ⊢
+theorem accessor_resolve_valid (resolve : Bytes → Option (Bool × Bytes)) (a : Addr) (hv : a.isValid = true) :
+    a.resolveIPPort resolve ≠ .panic := np_resolveIPPort resolve a hv
+/-- … and without it they do: `IP()` on the domain BND.ADDR of a well-formed success reply (the class of seeded change C06-3) -/
+theorem accessor_ip_on_domain_panics :
+    (connAddrFromSlice [3, 1, 0x78, 0, 53] >>= fun (an : Addr × Nat) => (an.1.ip : R (Bool × Bytes))) = .panic := by decide
+
+/-- Gen side condition: every call of `conn.Addr.IP/IPPort/Domain` in direct, socks5, service, router, dns, netio, probe, ss2022,
+ssnone, httpproxy, clientgroups is dominated by the `IsIP()` / `!IsIP()` / `IsDomain()` check its contract needs, EXCEPT the
+audited sites below: `updateDomainIPCache` (called only from the `!IsIP()` branch of `DirectPacketClientPacker.PackInPlace` with a
+parsed, hence valid, address) and the direct server's configured `targetAddr` (load-time check, finding F4). A new unguarded
+accessor call re-opens this obligation. -/
+theorem unguarded_accessor_sites_are_the_audited_ones : Gen.C06.unguardedAccessorSites =
+    ["direct.(*DirectPacketClientPacker).updateDomainIPCache: targetAddr.Domain() guard=none", "direct.(*DirectPacketClientPacker).updateDomainIPCache: targetAddr.Domain() guard=none", "direct.(*DirectPacketServerPackUnpacker).PackInPlace: p.targetAddr.IPPort() guard=none"] := rfl
+theorem accessor_sites_fingerprint : Gen.C06.accessorSites =
+    ["direct.(*DirectPacketClientPacker).updateDomainIPCache: targetAddr.Domain() guard=none", "direct.(*DirectPacketClientPacker).updateDomainIPCache: targetAddr.Domain() guard=none", "direct.(*DirectPacketClientPacker).PackInPlace: targetAddr.IPPort() guard=IsIP", "direct.(*DirectPacketServerPackUnpacker).PackInPlace: p.targetAddr.IPPort() guard=none", "socks5.AppendAddrFromConnAddr: addr.IPPort() guard=IsIP", "socks5.AppendAddrFromConnAddr: addr.Domain() guard=notIsIP", "socks5.WriteAddrFromConnAddr: addr.IPPort() guard=IsIP", "socks5.WriteAddrFromConnAddr: addr.Domain() guard=notIsIP", "socks5.LengthOfAddrFromConnAddr: addr.IPPort() guard=IsIP", "socks5.LengthOfAddrFromConnAddr: addr.Domain() guard=notIsIP", "router.(DestDomainCriterion).Meet: requestInfo.TargetAddr.Domain() guard=notIsIP", "router.(*DestIPCriterion).Meet: requestInfo.TargetAddr.IP() guard=IsIP", "router.(DestResolvedIPCriterion).Meet: requestInfo.TargetAddr.IP() guard=IsIP", "router.(DestResolvedIPCriterion).Meet: requestInfo.TargetAddr.Domain() guard=notIsIP", "router.(DestGeoIPCountryCriterion).Meet: requestInfo.TargetAddr.IP() guard=IsIP", "router.(DestResolvedGeoIPCountryCriterion).Meet: requestInfo.TargetAddr.IP() guard=IsIP", "router.(DestResolvedGeoIPCountryCriterion).Meet: requestInfo.TargetAddr.Domain() guard=notIsIP", "netio.(*UDPClientSession).AppendPack: destAddr.IPPort() guard=IsIP", "netio.(*UDPClientSession).AppendPack: destAddr.Domain() guard=notIsIP", "probe.(UDPProbe).Probe: p.addr.IPPort() guard=IsIP"] := rfl
+
 /-! ### everything computed afterwards: routing on the wire-derived address (finding F3) -/
 
 /-- FULL STATEMENT: for every router configuration (every criterion kind, every port representation,
@@ -483,6 +511,21 @@ theorem shape_UDPRelayHeadroom : Gen.C06.UDPRelayHeadroom_shape =
 theorem shape_MaxPacketSizeForAddr : Gen.C06.MaxPacketSizeForAddr_shape =
     ["if mtu > 65575 => return"] := rfl
 
+theorem shape_Socks5UDPClientNewSession : Gen.C06.Socks5UDPClientNewSession_shape =
+    [] := rfl
+
+theorem shape_Socks5UDPClientNewSessionInner : Gen.C06.Socks5UDPClientNewSessionInner_shape =
+    ["call .ResolveIPPort"] := rfl
+
+theorem shape_Socks5AuthUDPClientNewSession : Gen.C06.Socks5AuthUDPClientNewSession_shape =
+    [] := rfl
+
+theorem shape_NoneUDPClientNewSession : Gen.C06.NoneUDPClientNewSession_shape =
+    ["call .ResolveIPPort"] := rfl
+
+theorem shape_SS2022UDPClientNewSession : Gen.C06.SS2022UDPClientNewSession_shape =
+    ["call .ResolveIPPort", "call Uint64"] := rfl
+
 end SSV.C06
 
 #print axioms SSV.C06.no_panic_addrPortFromSlice
@@ -524,6 +567,13 @@ end SSV.C06
 #print axioms SSV.C06.parsed_address_fits_packers
 #print axioms SSV.C06.parsed_address_fits_packers_dc
 #print axioms SSV.C06.no_panic_relay_dialstream_split
+#print axioms SSV.C06.no_panic_socks5_udp_associate_session
+#print axioms SSV.C06.accessor_ip_under_guard
+#print axioms SSV.C06.accessor_domain_under_guard
+#print axioms SSV.C06.accessor_resolve_valid
+#print axioms SSV.C06.accessor_ip_on_domain_panics
+#print axioms SSV.C06.unguarded_accessor_sites_are_the_audited_ones
+#print axioms SSV.C06.accessor_sites_fingerprint
 #print axioms SSV.C06.no_panic_router_match
 #print axioms SSV.C06.no_panic_wire_to_route
 #print axioms SSV.C06.router_match_unguarded_panics
@@ -603,3 +653,8 @@ end SSV.C06
 #print axioms SSV.C06.shape_LengthOfAddrFromConnAddr
 #print axioms SSV.C06.shape_UDPRelayHeadroom
 #print axioms SSV.C06.shape_MaxPacketSizeForAddr
+#print axioms SSV.C06.shape_Socks5UDPClientNewSession
+#print axioms SSV.C06.shape_Socks5UDPClientNewSessionInner
+#print axioms SSV.C06.shape_Socks5AuthUDPClientNewSession
+#print axioms SSV.C06.shape_NoneUDPClientNewSession
+#print axioms SSV.C06.shape_SS2022UDPClientNewSession
